@@ -48,6 +48,13 @@ TEXT = {
             "second root; leaf_iter = leaves at leaf positions left to right. Tie: history.py / tree.py on generated "
             "histories (repeats, reversions) and tree pairs.",
             "Coq proof by induction on paths / trees + correspondence", "5 (C18)"),
+    "C20": ("Theorems (all H, sources, trees, paths): a tree whose subtrees are virtual nodes over a source consistent "
+            "with the materialised tree has the same root, the same navigation results and navigation errors, and the "
+            "same results of writes with and without expansion (simulation relation vrel); the memo state machine of a "
+            "VirtualNode hands each child out of the source at most once. Views over virtual trees tied by "
+            "correspondence (model with VirtN + table source) and model-free comparison with the materialised tree; "
+            "per-node source-call log checked for repeats.",
+            "Coq proof (simulation relation vrel, state-machine invariant) + correspondence", "5 (C20)"),
 }
 import importlib, sys
 sys.path.insert(0, os.path.join(V, "harness"))
